@@ -18,5 +18,5 @@ for ID in "$@"; do
   cp /tmp/ev.$ID.bak /verif/evidence/$ID.json 2>/dev/null
 done
 git -C /repo checkout -- .
-(cd /verif/harness && cargo build --release --offline >/dev/null 2>&1)
+[ -n "${SKIP_REBUILD:-}" ] || (cd /verif/harness && cargo build --release --offline >/dev/null 2>&1)
 git -C /repo status --short | head
